@@ -143,7 +143,8 @@ def drive(arg):
       elif k < 0.53 and alive:
         o = rnd.choice(alive)
         weak = o == weak_owner or rnd.random() < 0.3
-        a, args = "AutoBind", dict(o=o, prio=rnd.choice([1, 2]), weak=weak)
+        a, args = "AutoBind", dict(o=o, prio=rnd.choice([1, 2]), weak=weak,
+                                   prefix=rnd.choice(["", "", "", "other"]))
       elif k < 0.575:
         # removeListeners(list): mixed forms, live / stale / never-issued /
         # duplicate entries, or exactly what the last autoBind returned
@@ -159,7 +160,7 @@ def drive(arg):
             it = dict(mode=mode, o="-", m="-", t="-", id=0)
             if mode == "handler" and alive:
               it["o"] = rnd.choice(alive)
-              it["m"] = rnd.choice(["h", "h", rnd.choice(types)])
+              it["m"] = rnd.choice(["h", "h", rnd.choice(types), "o" + rnd.choice(types)])
             else:
               if mode == "handler":
                 it["mode"] = mode = "eid"
@@ -177,7 +178,8 @@ def drive(arg):
           if not alive:
             continue
           args["o"] = rnd.choice(alive)
-          args["m"] = rnd.choice(["h", "h", rnd.choice(types)])
+          args["m"] = rnd.choice(["h", "h", "h", "h", rnd.choice(types), rnd.choice(types),
+                                  "o" + rnd.choice(types)])
         else:
           args["id"] = rnd.randint(max(1, nsub - 5), nsub + 1)
         if mode in ("handlerT", "eidT", "pair"):
@@ -244,6 +246,9 @@ def trace_signature(ev):
     sig["observed"] = ev["obs"]["k"]
   if a == "Unsubscribe":
     sig["mode"] = args["mode"]
+  if a == "AutoBind":
+    sig["prefix"] = args.get("prefix", "")
+    sig["weak"] = args["weak"]
   if a == "UnsubscribeMany":
     sig["modes"] = sorted(set(it["mode"] for it in args["items"]))
   if a == "Subscribe":
